@@ -165,3 +165,16 @@ Print Assumptions C09_div_by_zero.
 Print Assumptions C09_modinv_is_ModInverse.
 Print Assumptions C09_glue_is_the_source.
 Print Assumptions C09_portable_aliasing.
+Print Assumptions C09_sub.
+Print Assumptions C09_neg.
+Print Assumptions C09_double.
+Print Assumptions C09_square.
+Print Assumptions C09_mulBy_constants.
+Print Assumptions C09_butterfly.
+Print Assumptions C09_inverse_zero.
+Print Assumptions C09_inverse_mul.
+Print Assumptions C09_div.
+Print Assumptions C09_toUint64Regular.
+Print Assumptions C09_mval_injective.
+Print Assumptions C09_constants.
+Print Assumptions C09_inv_mod_zero.
